@@ -1293,7 +1293,7 @@ class Interp(object):
                     raise PyRaise(self.make_exc('IndexError', str(ex)))
             raise PyRaise(self.make_exc('TypeError', 'indices must be integers'))
         if isinstance(obj, dict):
-            if is_conc(idx):
+            if is_conc(idx) or getattr(idx, 'pv_value_key', False):
                 if idx in obj:
                     return obj[idx]
                 raise PyRaise(self.make_exc('KeyError', idx))
